@@ -71,4 +71,8 @@ CHECKS["C17"] = dict(
    text="Held on every public call of the workload for the listed solvers (positivity contract as an icontract postcondition on ExactSolver.__call__) and on the sampled fine point sequences: compressive shocks, monotone fans (both Riemann solvers, Mader's Taylor wave incl. grids whose cell straddles its tail, EHEP region I, SDRZ), values bounded by the adjacent constant states (Mader transition cell, GenEOS smeared cells, points exactly on the piston's fronts), Su-Olson ordering and monotonicity. Sampling, not proof.",
    design_ref="5/C17", note=_T + "; Su-Olson comparisons on energy densities with the solver's 5e-5 absolute accuracy",
    technique="online contract (icontract postcondition) at the public call boundary + sequence monitors (monotonicity/bounds) on recorded calls")
+CHECKS["C20"] = dict(
+   text="The restriction catalogue (about 80 documented restrictions x violating/boundary values, plus black-box Noh's initial-condition checks) is executed exhaustively on every run and repeated with random valid values for the other parameters; documented out-of-domain requests must raise or return no entirely-finite record; every in-domain call of a sweep over all solver classes must return finite fields (icontract postcondition on ExactSolver.__call__). Enumeration of the catalogue, sampling of the rest; unenforced restrictions and in-domain NaN mechanisms that were not repaired are listed known findings.",
+   design_ref="5/C20", note=_T + "; the catalogue RESTR in rtm/props/c20.py was written from the pinned tree's docstrings, parameter help and messages",
+   technique="fault-catalogue execution (constructor/domain outcomes observed) + online finiteness contract at the call boundary")
 NOT_YET = {}
